@@ -189,8 +189,24 @@ def r2_key(ctx: Ctx) -> None:
         if isinstance(s, ast.Assign) and len(s.targets) == 1 and isinstance(s.targets[0], ast.Name) and isinstance(s.value, (ast.List, ast.Tuple, ast.Set)) \
                 and all(isinstance(e, ast.Constant) and isinstance(e.value, str) for e in s.value.elts):
             lists[s.targets[0].id] = [e.value for e in s.value.elts]
+    # … also when the lists are module-level constants
+    from ._tables import const_collection
+    for nm_ in {n.id for n in ast.walk(f.node) if isinstance(n, ast.Name) and isinstance(n.ctx, ast.Load)} - set(lists):
+        if not fl.is_local(nm_):
+            col = const_collection(ast.Name(id=nm_, ctx=ast.Load()), f.module)
+            if col is not None and col and all(isinstance(x, str) for x in col):
+                lists[nm_] = list(col)
+
     def driven_by(i):
-        return [nm for nm in lists if f'name:{nm}' in atoms[i]]
+        # by data flow (`sum(… for f in LIST)`) or by control (`if x in LIST: count += 1`)
+        ctl = set()
+        if isinstance(elts[i], ast.Name):
+            for s_ in fl.cfg.stmts():
+                tg = s_.targets if isinstance(s_, ast.Assign) else [s_.target] if isinstance(s_, ast.AugAssign) else []
+                if any(isinstance(t, ast.Name) and t.id == elts[i].id for t in tg):
+                    for atom, _tr in fl.cfg.guard_atoms(s_):
+                        ctl |= {n.id for n in ast.walk(atom) if isinstance(n, ast.Name)}
+        return [nm for nm in lists if f'name:{nm}' in atoms[i] or f'global:{nm}' in atoms[i] or nm in ctl]
     c0 = f'attr:{rule_p}.priority' in atoms[0] and not any(a.startswith('call:') for a in atoms[0])
     ctx.check(c0, 'C09.R2', f, 'component:0', 'explicit priority first', f'component 0 is {src(elts[0])!r}, not the rule priority', r)
     d1, d2 = driven_by(1), driven_by(2)
